@@ -165,6 +165,23 @@ example (I : Interp Nat) (x mem n : Nat) :
     ∃ m, exec I Example.post m (initState [0] [x] 0 mem) = exec I Example.pre n (initState [100] [x] 0 mem) :=
   validate_sound (vsz := fun _ => 8) (cert := Example.cert) (by decide) I [x] 0 mem n
 
+/-! ## scope of the statement: `Prog` is an arbitrary control-flow graph (conditional and unconditional jumps to any index, annotated
+   indirect jumps with any number of targets, calls as observable events, any number of loop iterations - `exec` is bounded only by its
+   fuel argument, which the theorems quantify over). Nothing is restricted to straight-line or structured code: `validate_sound` IS the
+   full statement (no `_partial`). Non-vacuity with a jump table, a call that clobbers registers and a join: -/
+
+namespace ExampleCfg
+/- 0: t := sel(a)   1: jump table on t -> {2, 4}   2: r := call h(a) [memory, event]   3: jmp 5   4: r := a   5: ret r -/
+def pre : Prog := #[.op "sel" [100] [101] [] false false, .jtab "jt" [101] [2, 4], .op "call h" [100] [102] [] true true, .jmp 5,
+                    .move 102 100 8, .ret [102]]
+def post : Prog := #[.op "sel" [0] [1] [] false false, .jtab "jt" [1] [2, 4], .op "call h" [0] [2] [1, 3] true true, .jmp 5,
+                     .move 2 0 8, .ret [2]]
+def cert : Cert := #[[⟨0, 0, [(0, 100)]⟩], [⟨1, 0, [(1, 101), (0, 100)]⟩], [⟨2, 0, [(0, 100)]⟩], [⟨3, 0, [(2, 102)]⟩], [⟨4, 0, [(0, 100)]⟩],
+                     [⟨5, 0, [(2, 102)]⟩]]
+end ExampleCfg
+
+example : validate (fun _ => 8) ExampleCfg.pre ExampleCfg.post [100] [0] ExampleCfg.cert = true := by decide
+
 /-! ## the rewriter's VEX -> EVEX table (regenerated from x86rapass.cpp) only renames an instruction to an EVEX form of the SAME
     operation (pairs regenerated from db/isa_x86.json: same operand encoding, prefix, opcode map, opcode, tail, operand kinds) -/
 
